@@ -99,7 +99,11 @@ def check(prop, tier, seed):
     unknown = {n: v for n, v in unknown.items() if v}
     unsupported = [(r['name'], u) for r in reports for u in r['unsupported']]
     bad_canaries = [(r['name'], c) for r in reports for c in r['canaries'] if not c[1]]
-    bad_covers = [(r['name'], c) for r in reports for c in r['covers'] if not c[1] and c[0].endswith('/requires')]
+    # a path is abandoned at its first failed obligation: cover points behind it are then not reached, which says
+    # nothing about the preconditions (tasks that check several functions one after the other)
+    pruned = {r['name'] for r in reports if any(o['status'] == 'sat' for o in r['obligations'])}
+    bad_covers = [(r['name'], c) for r in reports for c in r['covers']
+                  if not c[1] and c[0].endswith('/requires') and r['name'] not in pruned]
     n_inst = len(obligations)
     n_named = len(by_name)
     discharged_named = sum(1 for n, v in by_name.items() if all(o['status'] == 'unsat' for o in v))
